@@ -1393,11 +1393,18 @@ class Interp:
 
     e_CXXTemporaryObjectExpr = e_CXXConstructExpr
 
-    def draw_uniform(self):
+    def draw_uniform(self, lo=Fraction(0), hi=Fraction(1)):
         u = self.fresh("u")
-        self.assume(z3.And(u >= 0, u < 1))
-        self.events.append(("uniform", u))
-        self.uniform_syms.add(u.get_id())
+        if not is_sym(lo) and not is_sym(hi) and Fraction(lo) == 0 and Fraction(hi) == 1:
+            self.assume(z3.And(u >= 0, u < 1))
+            self.events.append(("uniform", u))
+            self.uniform_syms.add(u.get_id())
+            return u
+        # a distribution constructed with other bounds than [0, 1): the draw lies in [lo, hi) (lo itself when the interval is empty);
+        # such a draw is NOT eligible for the [0,1)-product linearisation, and the 'uniform' event carries no unit-interval promise
+        lo_s, hi_s = self.toreal(lo), self.toreal(hi)
+        self.assume(z3.And(u >= lo_s, z3.Implies(lo_s < hi_s, u < hi_s), z3.Implies(lo_s >= hi_s, u == lo_s)))
+        self.events.append(("uniform_other", u, lo, hi))
         return u
 
     def uniform_product(self, u, y):
@@ -1458,7 +1465,8 @@ class Interp:
             return self.binop("-", obj, other, n)
         if name == "operator()":
             if isinstance(obj, tuple) and obj[0] == "uiud":
-                return self.draw_uniform()
+                a = obj[1]
+                return self.draw_uniform(a[0] if len(a) > 0 else Fraction(0), a[1] if len(a) > 1 else Fraction(1))
             if isinstance(obj, tuple) and obj[0] == "poisson":
                 return self.draw_poisson(obj[1], obj[2])
             if isinstance(obj, tuple) and obj[0] == "normal":
